@@ -425,3 +425,22 @@ Proof.
   intros H Hi. unfold state_transition in H. cbv beta zeta in H. inv_step H. destruct p as [f1 st1].
   inv_all. eapply li_process_block; [eassumption|]. eapply li_process_slots; eassumption.
 Qed.
+
+(* ---------- genesis establishes the invariant ---------- *)
+Lemma some_state_inj {A} (x y : A) : Some x = Some y -> x = y.
+Proof. intros H. injection H as ->. reflexivity. Qed.
+Lemma some_pair_inj {A B} (a c : A) (b d : B) : Some (a, b) = Some (c, d) -> a = c /\ b = d.
+Proof. intros H. injection H as -> ->. split; reflexivity. Qed.
+
+Theorem li_genesis E h t deps st : initialize_beacon_state_from_eth1 E h t deps = Some st -> lengths_inv Phase0 st.
+Proof.
+  intros H. unfold initialize_beacon_state_from_eth1 in H. cbv beta zeta in H. inv_step H.
+  apply some_state_inj in H. rewrite <- H. clear H.
+  apply (fold_opt_inv (fun x : BeaconState * list value => lengths_inv Phase0 (fst x))) in Hx.
+  - destruct Hx as [Hb _]. split; [|intros Hc; discriminate Hc].
+    cbn [set validators balances]. rewrite map_length, combine_length. lia.
+  - intros [x leaves] dep [x' leaves'] Hf Hxi. cbn [fst] in *. inv_step Hf.
+    apply some_pair_inj in Hf. destruct Hf as [<- _].
+    eapply li_process_deposit; [exact Hx0|]. revert Hxi. apply li_same_lens. sl_set_tac.
+  - split; [reflexivity|intros Hc; discriminate Hc].
+Qed.
